@@ -23,7 +23,10 @@ NL    == Len(Trace)
 TKind == IOEnv.VERIF_KIND
 \* the model that runs alongside for drift is the code as written unless the environment
 \* names repaired deviations (VERIF_FIX_etag / VERIF_FIX_stale / VERIF_FIX_dup)
-TFixed == { f \in {"etag", "stale", "dup"} : ("VERIF_FIX_" \o f) \in DOMAIN IOEnv }
+\* (after a repair is committed to /repo, add its name to DefaultFixed: the model then
+\* predicts the repaired behaviour and drift stays zero)
+DefaultFixed == {"etag", "stale", "dup"}
+TFixed == DefaultFixed \cup { f \in {"etag", "stale", "dup"} : ("VERIF_FIX_" \o f) \in DOMAIN IOEnv }
 TPal   == <<>>
 
 \* st (model state of the code, for drift only) and last (observation of the line just
